@@ -368,10 +368,19 @@ func c14Worker(args []string) int {
 			}
 		}
 		if spec.Fork {
+			// The fork claims a size three above the witnessed one where the
+			// universe allows, so that the witnessed history can afterwards
+			// resume BELOW the size the fork had claimed.
+			forkSize := map[*c14Log]int{}
 			for _, l := range logs {
 				last := l.sched[len(l.sched)-1]
-				if last+1 <= N && last > 0 {
-					publish(l, last+1, true)
+				fs := last + 3
+				if fs > N {
+					fs = last + 1
+				}
+				if fs <= N && last > 0 {
+					publish(l, fs, true)
+					forkSize[l] = fs
 				}
 			}
 			res.Steps++
@@ -380,6 +389,25 @@ func c14Worker(args []string) int {
 				last := l.sched[len(l.sched)-1]
 				if l.branch == "fork" {
 					check(r.addr, l, last, u.Main, maxLen, "fork")
+				}
+			}
+			// The log returns to the witnessed history and grows by one leaf
+			// (still below what the fork claimed): it is followed again.
+			var resumed []*c14Log
+			for _, l := range logs {
+				last := l.sched[len(l.sched)-1]
+				if forkSize[l] >= last+2 {
+					publish(l, last+1, false)
+					l.branch = "main"
+					resumed = append(resumed, l)
+				}
+			}
+			if len(resumed) > 0 {
+				res.Steps++
+				waitCycles()
+				until := time.Now().Add(deadline)
+				for _, l := range resumed {
+					await(r.addr, l, l.sched[len(l.sched)-1]+1, maxLen+1, "honest growth after a refused fork that had claimed a larger size", until)
 				}
 			}
 		}
